@@ -2928,6 +2928,23 @@ Tokenizer_has_leading_whitespace(Tokenizer *self)
 }
 
 /*
+    Return whether there is a newline between the start of the current stack
+    (a table cell) and the head.
+*/
+static int
+Tokenizer_cell_spans_lines(Tokenizer *self)
+{
+    Py_ssize_t i;
+
+    for (i = self->topstack->ident.head; i < self->head; i++) {
+        if (PyUnicode_READ(self->text.kind, self->text.data, i) == '\n') {
+            return 1;
+        }
+    }
+    return 0;
+}
+
+/*
     Parse the wikicode string, using context for when to stop. If push is true,
     we will push a new context, otherwise we won't and context will be ignored.
 */
@@ -3133,7 +3150,16 @@ Tokenizer_parse(Tokenizer *self, uint64_t context, int push)
                     return NULL;
                 }
             } else if (this == '|' && this_context & LC_TABLE_CELL_STYLE) {
-                return Tokenizer_handle_table_cell_end(self, 1);
+                if (Tokenizer_cell_spans_lines(self)) {
+                    // The cell went on to another line inside a nested node, so
+                    // this is not the end of its style attributes:
+                    self->topstack->context &= ~LC_TABLE_CELL_LINE_CONTEXTS;
+                    if (Tokenizer_emit_char(self, this)) {
+                        return NULL;
+                    }
+                } else {
+                    return Tokenizer_handle_table_cell_end(self, 1);
+                }
             }
             // On newline, clear out cell line contexts
             else if (this == '\n' && this_context & LC_TABLE_CELL_LINE_CONTEXTS) {
